@@ -153,13 +153,18 @@ def write_phase(scn, crash_at=None, log=None, items=None) -> WriteResult:
                                 o = m["mciipm"].IpmWriter(g, encoding=scn.get("encoding"), iso_config=cfg, blocked=blocked)
                                 o.write({"MTI": "1240", "DE2": "%016d" % j})
                             o.close()
-                    elif op in ("close", "exit"):
+                    elif op in ("close", "exit", "exit!"):
                         try:
                             if op == "close":
                                 w.close()
-                            else:
+                            elif op == "exit":
                                 exited = True
                                 w.__exit__(None, None, None)
+                            else:
+                                # the with-body raised: the context manager is left with an exception in flight
+                                exited = True
+                                err = ValueError("application error inside the with block")
+                                w.__exit__(ValueError, err, None)
                         except SimCrash:
                             raise
                         except Exception as ex:  # finalisation must not raise (C11)
